@@ -60,7 +60,7 @@ struct Kind { const char* name; std::vector<Dim> dims; };
 
 static const std::vector<Kind>& kinds() {
     static const std::vector<Kind> k = {
-        {"polygon", {{"nv", 5, "3,4,5,9,50 vertices (convex, parabola)"},
+        {"polygon", {{"nv", 6, "3,4,5,9,50,250 vertices (convex, parabola)"},
                      {"coords", 3, "db-grid; +0.3 db unit; +0.7 db unit shifted to -2.146e9 db units"},
                      {"rep", 6, "none; rect 2x2; regular 2x2; explicit(2); explicit_x(2); explicit_y(2)"},
                      {"props", 6, "none; (1,'a'); (2,'ab'); (1,'abc')+(127,'abcd'); raw bytes without NUL (6,'abc'); raw (7,'abcd')"},
@@ -76,7 +76,10 @@ static const std::vector<Kind>& kinds() {
                       {"nel", 2, "1 element; 2 elements (zero offsets, different tags/widths)"},
                       {"rep", 3, "none; rect 2x1; explicit(2)"},
                       {"props", 2, "none; (3,'xyz')"}}},
-        {"nonsimple", {{"end", 2, "flush; round"}, {"nel", 2, "1; 2 elements with offsets"}}},
+        // non-simple paths are written as the polygons of to_polygons(), each carrying a COPY of the path's repetition
+        {"nonsimple", {{"end", 2, "flush; round"}, {"nel", 2, "1; 2 elements with offsets"},
+                       {"class", 2, "FlexPath; RobustPath"},
+                       {"rep", 6, "none; rect 2x2; regular 2x2 oblique; explicit(2); explicit_x(2); explicit_y(2)"}}},
         {"label", {{"anchor", 9, "NW,N,NE,W,O,E,SW,S,SE"},
                    {"rot", 5, "0; pi/2; 0.3; pi; -pi/2"},
                    {"mag", 3, "1; 2.5; 0.5"},
@@ -195,7 +198,7 @@ static bool build_family(Library& lib, int libcfg, const std::string& kind, cons
     if (kind == "polygon" || kind == "bigpolygon") {
         Polygon* g = (Polygon*)allocate_clear(sizeof(Polygon));
         if (kind == "polygon") {
-            static const int nvs[] = {3, 4, 5, 9, 50};
+            static const int nvs[] = {3, 4, 5, 9, 50, 250};
             int nv = nvs[p[0]];
             double dx = p[1] == 0 ? 0 : p[1] == 1 ? 0.3 : 0.7, shift = p[1] == 2 ? -2146000000.0 : 0;
             for (int i = 0; i < nv; i++) g->point_array.append(Vec2{(1000.0 * i + dx + shift) * DB, (100.0 * i * i - 7 * i - dx) * DB});
@@ -214,6 +217,20 @@ static bool build_family(Library& lib, int libcfg, const std::string& kind, cons
             g->tag = make_tag(2, 3);
         }
         top->polygon_array.append(g);
+    } else if (kind == "nonsimple" && p[2] == 1) {
+        RobustPath* r = (RobustPath*)allocate_clear(sizeof(RobustPath));
+        int nel = p[1] + 1;
+        double w[2] = {0.2, 0.1}, off[2] = {0, 0};
+        if (nel == 2) { off[0] = -0.3; off[1] = 0.3; }
+        Tag tags[2] = {make_tag(3, 4), make_tag(32767, 0)};
+        r->init(Vec2{1.0, -2.0}, (uint64_t)nel, w, off, 0.01, 1000, tags);
+        r->segment(Vec2{11.0, -2.0}, NULL, NULL, false);
+        r->segment(Vec2{11.0, 5.5}, NULL, NULL, false);
+        r->simple_path = false;
+        r->scale_width = true;
+        for (int i = 0; i < nel; i++) r->elements[i].end_type = p[0] ? EndType::Round : EndType::Flush;
+        set_rep(r->repetition, p[3]);
+        top->robustpath_array.append(r);
     } else if (kind == "flexpath" || kind == "nonsimple") {
         FlexPath* f = (FlexPath*)allocate_clear(sizeof(FlexPath));
         bool simple = kind == "flexpath";
@@ -245,6 +262,7 @@ static bool build_family(Library& lib, int libcfg, const std::string& kind, cons
             f->elements[i].end_type = ends[end];
             if (simple) f->elements[i].end_extensions = Vec2{exts[p[4]][0], exts[p[4]][1] + 0.001 * i};
         }
+        if (!simple) set_rep(f->repetition, p[3]);
         if (simple) {
             set_rep(f->repetition, p[6] == 0 ? 0 : p[6] == 1 ? 6 : 3);
             if (p[7]) set_gds_property(f->properties, 3, "xyz");
